@@ -8,6 +8,16 @@ ALL = ["C%02d" % i for i in range(1, 21)]
 
 # pid -> (category, level text, level note, technique, design_ref)
 CHECKS = {
+ "C09": ("proof",
+         "Byte-level Coq models of readLine (continuations, EOF rules, include push/pop, depth limit), newSubReader's search, pos.wrapErr with all its slice/index operations, the section dispatch for the simple clauses, the edit splitter, preprocReplace and parseDefines, with Panic and OutOfFuel as real outcomes. Theorems for every file system, search path, -D list and clause-parser behaviour: the reader terminates within an explicit fuel bound (weight argument + depth limit), never indexes out of range, every diagnostic position names an existing file and line, a refused clause is reported at the first physical line of its logical line with the include chain equal to the reader stack, never more than ten readers. Tie: ~4,100 (thorough ~49,500) differential cases per run — grammar-derived texts, their mutations, arbitrary bytes, include graphs (chains, diamonds, cycles, directories, missing files) — through the real parser under a watchdog; any panic or timeout is a property failure; a corpus replays the four repaired defects first.",
+         "Trusted: Coq kernel+VM, harness+hook. NOT transcribed: the regexp-dispatched clause parsers, checkIdent, validateStoryLine, compileV2 and govaluate (an arbitrary `judge` function in the model: every theorem holds for all judges); that they neither crash nor loop rests on the differential fuzzing only.",
+         "Rocq/Coq proof (termination by a decreasing weight, invariants over reachable reader states) + differential fuzzing correspondence",
+         "DESIGN.md section 6, C09"),
+ "C20": ("proof",
+         "preprocReplace is proved equal to a declarative leftmost, non-overlapping, single-pass expansion (values containing ~ are not re-expanded; an undefined name yields an error naming it); define precedence (first -D, else first `parameter`, else undefined); include is a splice (from an include clause on the reader delivers the included file's lines recursively, then the rest of the includer), searched next to the including file first and then in -I order, followed below ten readers and refused at ten — over the byte-level reader/preprocessor models shared with C09. Which fields of which clauses are substituted is checked on the real parser: ~p~ is planted in 40 fields under 7 definition modes with a metamorphic oracle (a substituted field reads exactly as if the winning value were written there; an untouched field behaves exactly as with p undefined). ~3,200 cases per quick run.",
+         "Trusted: Coq kernel+VM, harness+hook. The per-field substitution list is established by the planted-parameter correspondence, not by a theorem (the clause parsers are not transcribed).",
+         "Rocq/Coq proof (preprocessor = declarative expansion; reader stack = recursive inclusion) + differential and metamorphic correspondence",
+         "DESIGN.md section 6, C20"),
  "C19": ("proof",
          "A transcription of subPlots/plot/assemble's range and audit.go's mood bookkeeping as lists of abstract gnuplot directives (Model/Plot.v) is proved equal to a filter-style statement of the property (Model/PlotSpec.v) for every cast, audience, mood list, act list and window, with one corollary per sentence of the statement (one time axis with the 5% margin, lanes = actors with data in cast order, boxes = members with data and without `only helps` in declaration order with one curve per watched variable with data then the audit rows, events on their own lanes, one band per non-clear mood period, one line per later act, zoomed copy iff the repeated act started). The theorem relates two descriptions of the same loops; the tie carries most of the detection value: the real assemble+plot+subPlots run on generated configurations and collected states, the .gp scripts are parsed strictly into directives and compared in Coq with the model and with a spec-only oracle (thorough adds end-to-end plays).",
          "Trusted: Coq kernel+VM, harness+hook, the .gp parser. float64 rounding and %f formatting are not modelled (time stamps on a 10 ms grid, off clipping boundaries); gnuplot itself is not run.",
